@@ -397,6 +397,14 @@ def rule_fit(repo):
                 r.bad(m, 'Bits.__setitem__', cons, "integer value is not range-checked against the target width", st.lineno)
                 continue
             bad = None
+            from rules.c04 import WrongWidth
+            try:
+                for U in ((1, 3, 7) if inside else (1,)):
+                    _eval_region(f, gs, vname, st, U, nev, want_width=(S if inside else None))
+            except WrongWidth as ww:
+                r.bad(m, 'Bits.__setitem__', cons, f"the range check of the assigned integer uses {ww}, which is not the bound table entry for the "
+                      f"width of the target slice: an integer too wide for the slice (but fitting that other width) is silently truncated", st.lineno)
+                continue
             for U in ((1, 3, 7) if inside else (1,)):
                 acc = _eval_region(f, gs, vname, st, U, nev)
                 LO = -((U + 1) // 2)
@@ -618,7 +626,23 @@ def rule_rtlir_slices(repo):
     return rule_widthtable(repo)
 
 
-RULES = [rule_bounds, rule_nonefalsy, rule_frame, rule_fit, rule_helpers, rule_intlog, rule_signal_slices, rule_rtlir_slices]
+def rule_slice_nodes(repo):
+    """sibling implementation of slicing: the per-signal memo of slice objects (`_dsl.slices`) and the nodes the structural
+    passes register for them must be keyed by the absolute bit range, so that a nested slice never aliases the node of a
+    different range -- shared with C08 (R-C08-nodes)"""
+    from rules.c08 import rule_nodes
+    return rule_nodes(repo)
+
+
+def rule_translated_slices(repo):
+    """sibling implementation of slicing / sext / zext / trunc: the SystemVerilog text emitted for them ([upper-1:lower],
+    [base +: size], msb replication, MSB-side zero padding, low-bit truncation) -- shared with C03 (R-tr-slice)"""
+    from sa import tr_util
+    return tr_util.rule_slice(repo, backend='sv')
+
+
+RULES = [rule_bounds, rule_nonefalsy, rule_frame, rule_fit, rule_helpers, rule_intlog, rule_signal_slices, rule_rtlir_slices,
+         rule_slice_nodes, rule_translated_slices]
 
 
 def _m(name, old, new, rule=None, file=BITS, count=1):
@@ -629,6 +653,7 @@ _DEF_NEW = """        start = 0 if idx.start is None else int(idx.start)
         stop  = self._nbits if idx.stop is None else int(idx.stop)
 """
 MUTANTS = [
+    _m('slice-int-check-wrong-table-key', "        lo = _lower[slice_nbits]\n        up = _upper[slice_nbits]\n\n        if v < lo or v > up:\n          raise ValueError( f\"Cannot fit {v} into a Bits{slice_nbits} slice", "        lo = _lower[stop]\n        up = _upper[stop]\n\n        if v < lo or v > up:\n          raise ValueError( f\"Cannot fit {v} into a Bits{slice_nbits} slice", 'R-C05-fit'),
     _m('D1-reintroduced', _DEF_NEW, "        start, stop = int(idx.start or 0), int(idx.stop or self._nbits)\n", 'R-C05-nonefalsy', count='first'),
     _m('stop-default-truthy', "        stop  = self._nbits if idx.stop is None else int(idx.stop)\n",
        "        stop  = int(idx.stop) if idx.stop else self._nbits\n", 'R-C05-nonefalsy', count='first'),
